@@ -84,6 +84,24 @@ theorem C16_fed (t : OpTable) (h : List Ev) : (run t h).fed = pushedOf h := by
   have := Blocks.foldl_fed t h {}
   simpa [run] using this
 
+/-- Schedule independence, stated directly: two schedules without `finish` that feed
+the same instructions — in whatever grouping into `push` / `push_all`, with `take`
+called wherever — hand out and hold exactly the same blocks in the same order. -/
+theorem C16_schedule_independent (t : OpTable) (h₁ h₂ : List Ev)
+    (hn₁ : ∀ e ∈ h₁, e ≠ Ev.finish) (hn₂ : ∀ e ∈ h₂, e ≠ Ev.finish)
+    (hp : pushedOf h₁ = pushedOf h₂) :
+    (run t h₁).allBlocks = (run t h₂).allBlocks := by
+  have a := run_blocksOf t h₁ hn₁
+  have b := run_blocksOf t h₂ hn₂
+  rw [C16_fed] at a b
+  rw [hp] at a
+  have e := a.trans b.symm
+  rw [Run.allBlocks_eq, Run.allBlocks_eq]
+  have e1 := congrArg Prod.fst e
+  have e2 := congrArg Prod.snd e
+  simp only at e1 e2
+  rw [e1, e2]
+
 /-- The flags the separator reads from the regenerated Cancun table are the
 specification's: jump-target ⇔ jumpdest; block-ending ⇔ jump, jumpi or halting
 (stop, return, revert, invalid, selfdestruct, every byte etk does not define). -/
@@ -110,5 +128,9 @@ example : ((run Gen.cancun [.pushAll [(0, ⟨0x5b, []⟩), (1, ⟨0x60, [1]⟩),
 -- to the separator one instruction at a time with a `take` in between; the hypothesis holds and the tail is `[0x61, 0x02]`
 example : (run Gen.cancun [.push (0, ⟨0x60, [0x01]⟩), .take, .push (2, ⟨0x5b, []⟩)]).fed
     = (Disasm.run Gen.cancun [.write [0x60], .poll, .write [0x01, 0x5b, 0x61, 0x02], .poll, .poll, .poll]).emitted := by decide
+
+-- non-vacuity of `C16_schedule_independent`: one batch against three single pushes with a `take` in between
+example : pushedOf [.pushAll [(0, ⟨0x5b, []⟩), (1, ⟨0x00, []⟩), (2, ⟨0x58, []⟩)]]
+    = pushedOf [.push (0, ⟨0x5b, []⟩), .push (1, ⟨0x00, []⟩), .take, .push (2, ⟨0x58, []⟩)] := by decide
 
 end EtkVerif.C16
